@@ -49,7 +49,20 @@ func (e *Engine) mirror(op *COp, res Result) *Violation {
 			}
 			continue
 		}
-		r := sh.S.Apply(op)
+		var r Result
+		if sh.Kind == "fresh" && op.Variant == "Batch.RemoveEntities" {
+			// The order in which a batch removal recycles entities is iteration order, which C15 leaves open
+			// ("up to iteration order"): give the twin the primary's order as a loop of single removals.
+			for _, h := range e.rmOrder {
+				r1 := sh.S.Apply(&COp{Kind: "rm", Ent: h, Rel: -1})
+				if r1.Panicked {
+					return e.sv(sh, op, "removal of %v panicked in the fresh twin: %s", h, r1.Msg)
+				}
+			}
+			r.Count = len(e.rmOrder)
+		} else {
+			r = sh.S.Apply(op)
+		}
 		e.lastShadow[sh] = r
 		if r.Panicked != res.Panicked {
 			return e.sv(sh, op, "%s %s: panic=%v (%s) here, panic=%v in the primary world", op.Kind, op.Variant, r.Panicked, r.Msg, res.Panicked)
